@@ -9,6 +9,7 @@ W=$(mktemp -d /tmp/trymut-XXXX)
 git -C /repo worktree add -q --detach $W/repo HEAD || exit 2
 ( cd $W/repo && git apply $D/patch.diff ) || { echo "$D cannot apply"; git -C /repo worktree remove --force $W/repo; rm -rf $W; exit 2; }
 cp -r /verif/harness $W/harness
+rm -f $W/harness/hx/wireoracle.go $W/harness/hx/*_test.go
 sed -i "s#=> /repo#=> $W/repo#" $W/harness/go.mod
 cp $W/repo/go.sum $W/harness/go.sum
 ( cd $W/harness && go build -tags verif -o $W/diffrun ./cmd/diffrun ) > $W/build.log 2>&1 || { echo "$D build failed: $(tail -3 $W/build.log)"; git -C /repo worktree remove --force $W/repo; rm -rf $W; exit 2; }
